@@ -848,7 +848,9 @@ func (w *world) stepClient(s *vsess, rng *rand.Rand, allowIdle bool) string {
 		}
 
 		pos := pickPositions(rng, n)
-		item := []string{"(FLAGS)", "(UID)", "(BODY.PEEK[])", "(BODY[])", "(RFC822.SIZE UID FLAGS)", "(BODY[TEXT])"}[rng.Intn(6)]
+		// (the last two name parts that do not exist: the command fails after the message was looked up, and
+		// must not leave the \Seen side effect behind in the view)
+		item := []string{"(FLAGS)", "(UID)", "(BODY.PEEK[])", "(BODY[])", "(RFC822.SIZE UID FLAGS)", "(BODY[TEXT])", "(BODY[7.1])", "(UID BODY[2.1.TEXT])"}[rng.Intn(8)]
 		w.exec(s, fmt.Sprintf("FETCH %s %s", seqSetOf(pos), item))
 
 		return "FETCH"
